@@ -27,7 +27,7 @@ from ..program import FuncModel
 from ..repo import text
 from .common import callee_name, is_empty_list
 
-ORDER_ONLY = {"list", "sorted", "tuple"}
+ORDER_ONLY = {"list", "sorted", "tuple", "set", "frozenset"}   # same elements
 
 
 class SymEval:
@@ -293,6 +293,14 @@ class SymEval:
             else:
                 el = self.val(x.elt, at2, b2)
             return [(el, cond)]
+        while isinstance(x, ast.Call) and isinstance(x.func, ast.Name) and x.func.id in ORDER_ONLY and len(x.args) == 1:
+            x, at2 = self.fm.deref_at(x.args[0], at2)
+            if isinstance(x, (ast.ListComp, ast.SetComp, ast.GeneratorExp)):
+                return self.collection(x, at2)
+        if isinstance(x, ast.BinOp) and isinstance(x.op, ast.Sub):
+            # A - B : the elements of A that are not in B
+            a_, b_ = self.val(x.left, at2), self.val(x.right, at2)
+            return [(_norm(f"elem({a_})"), logic.Not(logic.B(f"in:{_norm(f'elem({a_})')}|{b_}")))]
         tok = self.val(e, at)
         if tok in self.accs:
             return [(el, c) for el, c, _ in self.contributions(tok)]
